@@ -198,7 +198,7 @@ def run(chk, replay_obj=None):
     found_dynamic = False
     for rep in rc["protected_by_model"][:3]:
         found_dynamic = True
-        chk.violation("data race reported on a pair of access sites the lock-set table claims protected: %s" % (rep["sites"],),
+        chk.violation(("data race reported on a pair of access sites the lock-set table claims protected: %s" if pr["ok"] else "data race reported on a pair of modelled access sites (the lock-set obligation fails on this tree too): %s") % (rep["sites"],),
                       dict(replay_base, race_report=rep["text"], sites=rep["sites"]), True)
     for rep in rc["unmodelled"][:3]:
         found_dynamic = True
